@@ -69,152 +69,251 @@ CORPUS = os.path.join(common.VERIF, "corpus", "C16")
 # ----------------------------------------------------------------------------------------------------------
 # extractor
 # ----------------------------------------------------------------------------------------------------------
+def _forget_types(S, classes):
+    """remove what Daemon.register / a probe left in the serializers' per-type tables for these classes"""
+    for cls in classes:
+        try:
+            import serpent
+            serpent.unregister_class(cls)
+        except Exception:
+            pass
+        for scls in (S.JsonSerializer, getattr(S, "MsgpackSerializer", None)):
+            if scls is not None:
+                getattr(scls, "_%s__type_replacements" % scls.__name__).pop(cls, None)
+
+
 def _facts():
+    """Facts about the CURRENT source, obtained by running it (probes on a real Daemon / the real serializers), not by
+    matching its spelling: each of the five Cfg switches is the outcome of the witness history of its finding; the order of
+    the effects of register() is the observed order on instrumented arguments."""
     common.repo_on_path()
-    from Pyro5 import server, serializers, core
-    tree = ast.parse(open(server.__file__).read())
-    daemon = [n for n in tree.body if isinstance(n, ast.ClassDef) and n.name == "Daemon"][0]
-    dobj = [n for n in tree.body if isinstance(n, ast.ClassDef) and n.name == "DaemonObject"][0]
+    import gc
+    import inspect
+    import weakref as _weakref
+    from Pyro5 import server, serializers, core, errors, config
+    S = serializers
 
-    def method(cls, name):
-        f = [n for n in cls.body if isinstance(n, ast.FunctionDef) and n.name == name]
-        if len(f) != 1:
-            raise ValueError("C16 extractor: %s.%s not found" % (cls.name, name))
-        return f[0]
+    probe_cls = server.expose(type("C16Probe", (object,), {"__module__": "verif_c16_probe", "ping": lambda self: None}))
+    made = []
+    old_type = config.SERVERTYPE
+    config.SERVERTYPE = "multiplex"      # no worker threads, no sleep in close(); same registry code
 
-    reg, unreg = method(daemon, "register"), method(daemon, "unregister")
-    hook = [n for n in tree.body if isinstance(n, ast.FunctionDef) and n.name == "_pyro_obj_to_auto_proxy"]
-    if len(hook) != 1:
-        raise ValueError("C16 extractor: _pyro_obj_to_auto_proxy not found")
-    hook = hook[0]
+    def daemon():
+        d = server.Daemon(host="127.0.0.1", port=0)
+        made.append(d)
+        return d
 
-    def is_compares(fn, right):
-        """left operands of `<left> is <right>` comparisons in fn"""
-        out = []
-        for n in ast.walk(fn):
-            if isinstance(n, ast.Compare) and len(n.ops) == 1 and isinstance(n.ops[0], ast.Is) \
-                    and isinstance(n.comparators[0], ast.Name) and n.comparators[0].id == right:
-                out.append(ast.unparse(n.left))
-        return out
+    def entry(d, ident):
+        v = d.objectsById.get(ident)
+        return v() if isinstance(v, _weakref.ref) else v
 
-    def guarded_raise(fn, test):
-        return any(isinstance(n, ast.If) and ast.unparse(n.test) == test and n.body and isinstance(n.body[0], ast.Raise)
-                   for n in ast.walk(fn))
+    def unrecognised(what, got):
+        raise ValueError("C16 extractor: probe '%s' behaves in neither the original nor the repaired way: %r" % (what, got))
 
-    # (c) register refuses the daemon's own id
-    refuse_daemon = guarded_raise(reg, "objectId == core.DAEMON_NAME")
-    # (b) identity test of "already has a Pyro id"
-    lefts = is_compares(reg, "obj_or_class")
-    if lefts == ["self.objectsById.get(pyro_id)"]:
-        unpacks = False
-    elif len(lefts) == 1 and (lefts[0].startswith("self._registered(") or lefts[0].startswith("_unpack_weakref(")):
-        unpacks = True
-    else:
-        raise ValueError("C16 extractor: unrecognised identity test in Daemon.register: %r" % (lefts,))
-    # (e) what the weak finalizer calls
-    fin = [n for n in ast.walk(reg) if isinstance(n, ast.Call) and ast.unparse(n.func) == "weakref.finalize"]
-    if len(fin) != 1 or len(fin[0].args) < 3:
-        raise ValueError("C16 extractor: weakref.finalize call of Daemon.register not recognised")
-    cb = ast.unparse(fin[0].args[1])
-    if cb == "self.unregister":
-        fin_owner = False
-    elif cb.startswith("self."):
-        cbf = method(daemon, cb[5:])
-        tests = [ast.unparse(n.test) for n in ast.walk(cbf) if isinstance(n, ast.If)]
-        if len(fin[0].args) == 4 and tests == ["self.objectsById.get(objectId) is ref"]:
-            fin_owner = True
+    try:
+        # (a) the hook: stale attributes after unregister(id) / after a forced take-over of the id
+        d = daemon()
+        o, o2 = probe_cls(), probe_cls()
+        d.register(o, "a")
+        d.unregister("a")
+        try:
+            S.serializers["json"].dumps(o)
+            r1 = "byvalue"
+        except errors.DaemonError:
+            r1 = "error"
+        d = daemon()
+        o, o2 = probe_cls(), probe_cls()
+        d.register(o, "a")
+        d.register(o2, "a", force=True)
+        data = json.loads(bytes(S.serializers["json"].dumps({"x": o})).decode("utf-8"))["x"]
+        r2 = "proxy" if str(data.get("__class__", "")).endswith("Proxy") else "byvalue"
+        if (r1, r2) == ("byvalue", "byvalue"):
+            hook_checks = True
+        elif (r1, r2) == ("error", "proxy"):
+            hook_checks = False
         else:
-            raise ValueError("C16 extractor: unrecognised finalizer %s: %r" % (cb, tests))
-    else:
-        raise ValueError("C16 extractor: unrecognised finalizer callback %r" % cb)
-    # (d) ownership test of unregister(obj)
-    lefts = is_compares(unreg, "objectOrId")
-    if lefts == []:
-        unreg_owner = False
-    elif len(lefts) == 1 and (lefts[0].startswith("self._registered(") or lefts[0].startswith("_unpack_weakref(")):
-        unreg_owner = True
-    else:
-        raise ValueError("C16 extractor: unrecognised ownership test in Daemon.unregister: %r" % (lefts,))
-    unreg_guard = any(isinstance(n, ast.If) and ast.unparse(n.test) == "objectId == core.DAEMON_NAME"
-                      and n.body and isinstance(n.body[0], ast.Return) for n in ast.walk(unreg))
-    # (a) the type replacement hook
-    lefts = is_compares(hook, "obj")
-    body = [n for n in hook.body if not (isinstance(n, ast.Expr) and isinstance(n.value, ast.Constant))]
-    body_src = [ast.unparse(n) for n in body]
-    if lefts == [] and body_src == ["daemon = getattr(obj, '_pyroDaemon', None)", "if daemon:\n    return daemon.proxyFor(obj)", "return obj"]:
-        hook_checks = False
-    elif len(lefts) == 1 and lefts[0] == "registered" and "daemon.proxyFor(obj)" in body_src[1]:
-        hook_checks = True
-    else:
-        raise ValueError("C16 extractor: unrecognised shape of _pyro_obj_to_auto_proxy: %r" % (body_src,))
-    # fixed shapes the model relies on
-    registered_src = ast.unparse(method(dobj, "registered").body[-1])
-    handle = method(daemon, "handleRequest")
-    dispatch = any(isinstance(n, ast.Assign) and ast.unparse(n) == "obj = _unpack_weakref(self.objectsById.get(objId))"
-                   for n in ast.walk(handle))
-    init_direct = any(isinstance(n, ast.Assign) and ast.unparse(n) == "self.objectsById = {pyroObject._pyroId: pyroObject}"
-                      for n in ast.walk(method(daemon, "__init__")))
+            unrecognised("returned object with stale attributes", (r1, r2))
+        # (b) identity test of register for a weakly registered object
+        d = daemon()
+        o = probe_cls()
+        d.register(o, "a", weak=True)
+        try:
+            d.register(o, "b")
+            unpacks = False
+        except errors.DaemonError:
+            unpacks = True
+        # (c) the daemon's own id
+        d = daemon()
+        own = d.objectsById[core.DAEMON_NAME]
+        try:
+            d.register(probe_cls(), core.DAEMON_NAME, force=True)
+            refuse_daemon = False
+        except errors.DaemonError:
+            refuse_daemon = True
+        if refuse_daemon and d.objectsById.get(core.DAEMON_NAME) is not own:
+            unrecognised("forced registration under the daemon's id", "refused but replaced")
+        # (d) unregister(obj) after a forced take-over
+        d = daemon()
+        o, o2 = probe_cls(), probe_cls()
+        d.register(o, "a")
+        d.register(o2, "a", force=True)
+        d.unregister(o)
+        unreg_owner = entry(d, "a") is o2
+        if not unreg_owner and "a" in d.objectsById:
+            unrecognised("unregister(displaced object)", entry(d, "a"))
+        # (e) finalizer of a weak registration after a forced take-over
+        d = daemon()
+        o, o2 = probe_cls(), probe_cls()
+        d.register(o, "a", weak=True)
+        d.register(o2, "a", force=True)
+        del o
+        gc.collect()
+        fin_owner = entry(d, "a") is o2
+        if not fin_owner and "a" in d.objectsById:
+            unrecognised("collection of a displaced weak registration", entry(d, "a"))
+        # unregister leaves the daemon's own entry alone (by id and by object)
+        d = daemon()
+        own = d.objectsById[core.DAEMON_NAME]
+        d.unregister(core.DAEMON_NAME)
+        try:
+            d.unregister(own)
+        except Exception:
+            pass
+        unreg_guard = d.objectsById.get(core.DAEMON_NAME) is own
+        # a new daemon's table holds exactly its DaemonObject, which carries the daemon's id
+        init_direct = list(d.objectsById) == [core.DAEMON_NAME] and isinstance(own, server.DaemonObject) \
+            and getattr(own, "_pyroId", None) == core.DAEMON_NAME
+        # registered() = the keys of the table, in table order, weak registrations included
+        o, o2 = probe_cls(), probe_cls()
+        d.register(o, "b", weak=True)
+        d.register(o2, "a")
+        d.register(probe_cls, "c")
+        registered_keys = list(server.DaemonObject(d).registered()) == list(d.objectsById.keys()) == [core.DAEMON_NAME, "b", "a", "c"]
+        # class_to_dict clears an existing _pyroDaemon attribute
+        o = probe_cls()
+        o._pyroDaemon = 5
+        S.SerializerBase.class_to_dict(o)
+        clears = o._pyroDaemon is None
+
+        # ---- order of the EFFECTS of a successful register(obj, "id", weak=True), observed on instrumented arguments
+        events = []
+
+        def log(e):
+            if not events or events[-1] != e:
+                events.append(e)
+
+        class Table(dict):
+            def __contains__(self, k):
+                log("lookup")
+                return dict.__contains__(self, k)
+
+            def get(self, k, default=None):
+                log("lookup")
+                return dict.get(self, k, default)
+
+            def __setitem__(self, k, v):
+                log("insert")
+                dict.__setitem__(self, k, v)
+
+        class Traced(object):
+            def ping(self):
+                pass
+
+            def __setattr__(self, name, value):
+                if name in ("_pyroId", "_pyroDaemon"):
+                    log("attrs")
+                object.__setattr__(self, name, value)
+        Traced = server.expose(Traced)
+
+        class HookRecorder(object):
+            def register_type_replacement(self, object_type, replacement_function):
+                log("hooks")
+
+        class WeakrefShim(object):
+            def __getattr__(self, name):
+                return getattr(_weakref, name)
+
+            def finalize(self, *a, **k):
+                log("finalize")
+
+        d = daemon()
+        d.objectsById = Table(d.objectsById)
+        saved_sers, saved_weakref = dict(S.serializers), server.weakref
+        try:
+            for k in list(S.serializers):
+                S.serializers[k] = HookRecorder()
+            server.weakref = WeakrefShim()
+            t = Traced()
+            d.register(t, "traced", weak=True)
+            log("return")
+        finally:
+            S.serializers.clear()
+            S.serializers.update(saved_sers)
+            server.weakref = saved_weakref
+        effects = list(events)
+
+        # ---- the type replacement wins over the builtin conversions of default(): probed per serializer and base type
+        import array, datetime, decimal, uuid
+        bases = [("set", set, lambda c: c(["x"])), ("UUID", uuid.UUID, lambda c: c(int=5)),
+                 ("Decimal", decimal.Decimal, lambda c: c("1.5")), ("datetime", datetime.datetime, lambda c: c(2020, 1, 2)),
+                 ("date", datetime.date, lambda c: c(2020, 1, 2)), ("array", array.array, lambda c: c("i", [1]))]
+        hook_first = []
+        for sname in ("json", "msgpack"):
+            ser = S.serializers.get(sname)
+            if ser is None:
+                continue
+            for bname, base, mk in bases:
+                cls = type("C16Probe_" + bname, (base,), {"__module__": "verif_c16_probe"})
+                try:
+                    # (the replacement is a plain set: default() turns that into a list on either serializer)
+                    ser.register_type_replacement(cls, lambda obj: {"replaced-by-hook"})
+                    got = ser.loads(ser.dumps([mk(cls)]))
+                    hook_first.append(("%s:%s" % (sname, bname), [list(x) if isinstance(x, (list, tuple)) else x
+                                                                    for x in got] == [["replaced-by-hook"]]))
+                finally:
+                    _forget_types(S, [cls])
+    finally:
+        config.SERVERTYPE = old_type
+        for d in made:
+            try:
+                d.close()
+            except Exception:
+                pass
+        _forget_types(S, [probe_cls] + ([Traced] if "Traced" in dir() else []))
+
+    # the dispatch lookup of handleRequest goes through the table and the weak-reference unpacking (source fact, loose:
+    # some call in handleRequest that involves objectsById / _registered and the requested id)
+    tree = ast.parse(open(server.__file__).read())
+    dcls = [n for n in tree.body if isinstance(n, ast.ClassDef) and n.name == "Daemon"][0]
+    handle = [n for n in dcls.body if isinstance(n, ast.FunctionDef) and n.name == "handleRequest"]
+    dispatch = False
+    if handle:
+        for n in ast.walk(handle[0]):
+            if isinstance(n, ast.Call):
+                src = ast.unparse(n)
+                if ("_unpack_weakref(" in src or "_registered(" in src) and ("objectsById" in src or "_registered(" in src):
+                    dispatch = True
     # serializers with a working type replacement hook
     with_hook = []
-    for name, ser in sorted(serializers.serializers.items()):
+    for name, ser in sorted(S.serializers.items()):
         f = type(ser).__dict__.get("register_type_replacement")
         if f is None:
             continue
-        fsrc = ast.parse(__import__("textwrap").dedent(__import__("inspect").getsource(f.__func__))).body[0]
-        stmts = [n for n in fsrc.body if not isinstance(n, ast.Pass)]
+        fsrc = ast.parse(__import__("textwrap").dedent(inspect.getsource(f.__func__))).body[0]
+        stmts = [n for n in fsrc.body if not isinstance(n, ast.Pass)
+                 and not (isinstance(n, ast.Expr) and isinstance(n.value, ast.Constant))]
         if stmts:
             with_hook.append(name)
-    stree = ast.parse(open(serializers.__file__).read())
-    # order of the statements of Daemon.register
-    order = []
-    for st in reg.body:
-        src = ast.unparse(st)
-        if isinstance(st, ast.Expr) and isinstance(st.value, ast.Constant):
-            continue
-        if isinstance(st, ast.If) and src.startswith("if objectId:"):
-            k = "idcheck"
-        elif isinstance(st, ast.If) and src.startswith("if inspect.isclass(obj_or_class):"):
-            k = "classcheck"
-        elif isinstance(st, ast.If) and src.startswith("if not force:"):
-            k = "forcecheck"
-        elif isinstance(st, ast.Assign) and src.startswith(("obj_or_class._pyroId =", "obj_or_class._pyroDaemon =")):
-            k = "attrs"
-        elif isinstance(st, ast.For) and "register_type_replacement" in src:
-            k = "hooks"
-        elif isinstance(st, ast.Assign) and src.startswith("self.objectsById["):
-            k = "insert"
-        elif isinstance(st, ast.If) and src.startswith("if weak:") and "weakref.finalize" in src:
-            k = "finalize"
-        elif isinstance(st, ast.Return) and src == "return self.uriFor(objectId)":
-            k = "return"
-        else:
-            k = "unknown:" + src[:40]
-        if not order or order[-1] != k:
-            order.append(k)
-    # the type replacement is consulted before any builtin conversion in default()
-    hook_first = []
-    for cname in ("JsonSerializer", "MsgpackSerializer"):
-        cl = [n for n in stree.body if isinstance(n, ast.ClassDef) and n.name == cname]
-        if not cl:
-            continue
-        body = [ast.unparse(n) for n in method(cl[0], "default").body
-                if not (isinstance(n, ast.Expr) and isinstance(n.value, ast.Constant))]
-        hook_first.append((cname, body[:2] == ["replacer = self.__type_replacements.get(type(obj), None)",
-                                               "if replacer:\n    obj = replacer(obj)"]))
-    class_to_dict = method([n for n in stree.body
-                            if isinstance(n, ast.ClassDef) and n.name == "SerializerBase"][0], "class_to_dict")
-    clears = any(isinstance(n, ast.If) and ast.unparse(n.test) == "hasattr(obj, '_pyroDaemon')"
-                 and ast.unparse(n.body[0]) == "obj._pyroDaemon = None" for n in ast.walk(class_to_dict))
     return {
         "daemonName": core.DAEMON_NAME,
         "cfg": [hook_checks, unpacks, refuse_daemon, unreg_owner, fin_owner],
         "unregisterGuardsDaemonName": unreg_guard,
-        "registeredReturns": registered_src,
+        "registeredIsKeys": registered_keys,
         "dispatchLookup": dispatch,
         "initDirect": init_direct,
         "hookSerializers": with_hook,
         "classToDictClearsDaemon": clears,
-        "registerOrder": order,
+        "registerEffects": effects,
         "defaultHookFirst": hook_first,
     }
 
@@ -239,8 +338,8 @@ def unregChecksOwner : Bool := {b(c[3])}
 def finalizerChecksOwner : Bool := {b(c[4])}
 /-- `unregister` returns early for `core.DAEMON_NAME` -/
 def unregisterGuardsDaemonName : Bool := {b(f["unregisterGuardsDaemonName"])}
-/-- the return statement of `DaemonObject.registered` -/
-def registeredReturns : String := {json.dumps(f["registeredReturns"])}
+/-- probe: `DaemonObject.registered()` = the keys of the table, in table order, weak registrations included -/
+def registeredIsKeys : Bool := {b(f["registeredIsKeys"])}
 /-- `handleRequest` looks the object up with `_unpack_weakref(self.objectsById.get(objId))` -/
 def dispatchLookup : Bool := {b(f["dispatchLookup"])}
 /-- `Daemon.__init__` creates `objectsById` with exactly the DaemonObject in it -/
@@ -249,9 +348,10 @@ def initDirect : Bool := {b(f["initDirect"])}
 def hookSerializers : List String := {json.dumps(f["hookSerializers"])}
 /-- `SerializerBase.class_to_dict` sets `obj._pyroDaemon = None` when the attribute exists -/
 def classToDictClearsDaemon : Bool := {b(f["classToDictClearsDaemon"])}
-/-- the statements of `Daemon.register`, in source order (consecutive statements of one kind merged) -/
-def registerOrder : List String := {json.dumps(f["registerOrder"])}
-/-- per serializer class: `default()` starts with the type-replacement lookup -/
+/-- the effects of a successful `register(obj, id, weak=True)` in the order they were observed on instrumented arguments
+    (table lookups, attribute assignments on the object, hook installation, table insertion, finalizer, return) -/
+def registerEffects : List String := {json.dumps(f["registerEffects"])}
+/-- probe per serializer and builtin base type: a registered type replacement wins over `default()`'s builtin conversion -/
 def defaultHookFirst : List (String × Bool) := [{", ".join('(%s, %s)' % (json.dumps(n), b(v)) for n, v in f["defaultHookFirst"])}]
 end Pyro.Gen.C16
 """
